@@ -1,7 +1,7 @@
 #!/usr/bin/env python3
 """Apply every kept seed to /repo (never committed), run the designated quick checks, undo, and write
 /verif/seeded/<seed>/{patch.diff,demo.rs,notes.md,meta.json}."""
-import json, os, shutil, subprocess, sys
+import json, os, re, shutil, subprocess, sys
 
 SEEDS = {
  # seed dir : (property, needs, checks to run)
@@ -51,7 +51,8 @@ SEEDS.update({k: tuple(v) for k, v in EXTRA.items()})
 
 only = sys.argv[1:]
 for sd, (prop, needs, checks) in SEEDS.items():
-    name = sd.replace("seed-", "").replace("seed2-", "").replace("seed3-", "").replace("seed4-", "").replace("seed5-", "").replace("seed6-", "").replace("seed7-", "").replace("seed8-", "").replace("/", "-") + ("-r2" if sd.startswith("seed2-") else "-r3" if sd.startswith("seed3-") else "-r4" if sd.startswith("seed4-") else "-r5" if sd.startswith("seed5-") else "-r6" if sd.startswith("seed6-") else "-r7" if sd.startswith("seed7-") else "-r8" if sd.startswith("seed8-") else "")
+    _m = re.match(r"seed(\d*)-(.*)", sd)
+    name = _m.group(2).replace("/", "-") + (("-r" + _m.group(1)) if _m.group(1) else "")
     if only and name not in only:
         continue
     src = "/tmp/" + sd
@@ -66,7 +67,7 @@ for sd, (prop, needs, checks) in SEEDS.items():
     elif not os.path.exists(out + "/patch.diff"):
         print("missing", src); continue
     conf = {}
-    cj = "/tmp/confirm/" + sd.replace("seed-", "").replace("seed2-", "r2_").replace("seed3-", "r3_").replace("seed4-", "r4_").replace("seed5-", "r5_").replace("seed6-", "r6_").replace("seed7-", "r7_").replace("seed8-", "r8_").replace("/", "_") + ".json"
+    cj = "/tmp/confirm/" + (("r" + _m.group(1) + "_") if _m.group(1) else "") + _m.group(2).replace("/", "_") + ".json"
     if os.path.exists(cj):
         conf = json.load(open(cj))
     elif os.path.exists(out + "/meta.json"):
